@@ -39,6 +39,9 @@ func checkTruth(r *sysbind.Raft) string {
 
 func TestC08RaftSafety(t *testing.T) {
 	rapid.Check(t, func(t *rapid.T) {
+		if vstat.OverBudget() {
+			return
+		}
 		vstat.Case()
 		iv := sysbind.NewRaftInv()
 		answered := 0
